@@ -137,6 +137,8 @@ impl ParseError {
             true => index + ERR_CHAR_VIEW_RANGE + 1,
             false => env.len(),
         };
+        // 下限不得超过上限 | 头索引可能已越过环境末尾（如：未闭合括弧后仍「跳过右括弧」）
+        let char_range_left = char_range_left.min(char_range_right);
         // 截取字符，生成环境
         env[char_range_left..char_range_right].into()
     }
